@@ -254,6 +254,28 @@ def parse_output(out, res):
                 except Exception:
                     cur["vars"][k.strip()] = val.strip()
             continue
+        if ln.startswith("Error: Invariant ") and "violated by the initial state" in ln:
+            # TLC prints the offending initial state without a "State 1:" header
+            res.violated = ln.split()[2]
+            j = i + 1
+            buf = []
+            while j < len(lines) and lines[j].strip() != "":
+                buf.append(lines[j])
+                j += 1
+            st = {"n": 1, "action": "Initial predicate", "args": None, "vars": {}}
+            for part in re.split(r"(?m)^/\\ ", "\n".join(buf)):
+                part = part.strip()
+                if not part:
+                    continue
+                k, sep, val = part.partition(" = ")
+                try:
+                    st["vars"][k.strip()] = parse_value(val.strip())
+                except Exception:
+                    st["vars"][k.strip()] = val.strip()
+            res.trace = [st]
+            res.all.append((res.violated, res.trace))
+            i = j
+            continue
         if ln.startswith("Error: Invariant "):
             res.violated = ln.split()[2]
             res.all.append((res.violated, None))
